@@ -14,7 +14,7 @@ use crate::report::Run;
 use crate::rval::show_value_full as show_value;
 use dmntk_feel::context::FeelContext;
 use dmntk_feel::values::Value;
-use dmntk_feel::Name;
+use dmntk_feel::{Name, Scope};
 use dmntk_model_evaluator::ModelEvaluator;
 use rayon::prelude::*;
 use serde_json::json;
@@ -1290,6 +1290,81 @@ fn family_parameter_types(run: &Run, cnt: &Cnt) -> u64 {
   models
 }
 
+/// Typed input decisions of a decision service invoked by name: the value supplied for an input decision (and for an
+/// input data) is bound inside the service as the value of that decision - checked against the type of its variable, so a
+/// value of another kind is null inside, and a conforming one is passed unchanged. Every typing of two input decisions
+/// and one input data x every kind of supplied value.
+fn family_service_input_types(run: &Run, cnt: &Cnt) -> u64 {
+  let types: [Option<&str>; 4] = [None, Some("string"), Some("number"), Some("boolean")];
+  let values: [(&str, &str); 3] = [("\"s\"", "string"), ("1", "number"), ("true", "boolean")];
+  let mut models = 0u64;
+  for t1 in types {
+    for t2 in types {
+      for t3 in ["string", "number"] {
+        models += 1;
+        cnt.models.fetch_add(1, Ordering::Relaxed);
+        let mut m = Model::new("https://verif/c04s", "c04s");
+        m.inputs.push(dmn::Input { name: "i".into(), type_ref: t3.into() });
+        for (n, t) in [("Level", t1), ("Grade", t2)] {
+          m.decisions.push(dmn::Decision { name: n.into(), type_ref: t.map(|x| x.to_string()), requires: dmn::Requires::default(), logic: Some(Expr::lit("null")) });
+        }
+        m.decisions.push(dmn::Decision {
+          name: "Out".into(),
+          type_ref: None,
+          requires: dmn::Requires { inputs: vec!["i".into()], decisions: vec!["Level".into(), "Grade".into()], knowledge: vec![] },
+          logic: Some(Expr::lit("[Level, Grade, i]")),
+        });
+        m.services.push(dmn::Service {
+          name: "S".into(),
+          type_ref: None,
+          output_decisions: vec!["Out".into()],
+          encapsulated_decisions: vec![],
+          input_decisions: vec!["Level".into(), "Grade".into()],
+          input_data: vec!["i".into()],
+        });
+        let xml = m.to_xml();
+        let me = match dmntk_model::parse(&xml).map_err(|e| e.to_string()).and_then(|d| ModelEvaluator::new(&d).map_err(|e| e.to_string())) {
+          Ok(me) => me,
+          Err(e) => {
+            run.violation("service-input-types:model-does-not-load", &format!("generated well-formed model is rejected: {}", e), json!({"engine":"dmn","xml":xml,"invocable":"","ctx":[],"expected":"(model loads)"}));
+            continue;
+          }
+        };
+        let shape = format!("{},{},{}", t1.unwrap_or("untyped"), t2.unwrap_or("untyped"), t3);
+        for v1 in values {
+          for v2 in values {
+            for v3 in values {
+              let text = format!("{{Level: {}, Grade: {}, i: {}}}", v1.0, v2.0, v3.0);
+              let scope = Scope::default();
+              let ctx = match dmntk_feel_parser::parse_context(&scope, &text, false).ok().and_then(|n| dmntk_feel_evaluator::evaluate(&scope, &n).ok()) {
+                Some(Value::Context(c)) => c,
+                _ => {
+                  run.machinery_error(&format!("input context does not evaluate: {}", text));
+                  continue;
+                }
+              };
+              let pass = |v: (&str, &str), t: Option<&str>| if t.is_none() || t == Some(v.1) { v.0.to_string() } else { "null".to_string() };
+              let want = format!("[{}, {}, {}]", pass(v1, t1), pass(v2, t2), pass(v3, Some(t3)));
+              let got = crate::rval::show_value_full(&me.evaluate_invocable("S", &ctx));
+              cnt.evals.fetch_add(1, Ordering::Relaxed);
+              cnt.compared.fetch_add(1, Ordering::Relaxed);
+              cnt.nontrivial.fetch_add(1, Ordering::Relaxed);
+              if got != want {
+                run.violation(
+                  &format!("service-input-types:typed-({})", shape),
+                  &format!("decision service S with input decisions / input data typed ({}) invoked by name with {} gives {} but each supplied value checked against the type of the variable it is bound to gives {}", shape, text, got, want),
+                  json!({"engine":"dmn","xml":xml,"invocable":"S","ctx":text,"expected":want,"full":true}),
+                );
+              }
+            }
+          }
+        }
+      }
+    }
+  }
+  models
+}
+
 /// Boxed contexts nested in boxed contexts: the entries of the inner context are not visible to the entries that follow the
 /// inner context in the outer one, also when they are named like an input, an outer entry or a parameter.
 fn family_nested_contexts(run: &Run, cnt: &Cnt) -> u64 {
@@ -1460,6 +1535,7 @@ pub fn run() {
   // family 3: simultaneous bindings of boxed invocations, sequential entries of boxed contexts
   n_graphs += family_bindings(&run, &cnt, thorough);
   n_graphs += family_parameter_types(&run, &cnt);
+  n_graphs += family_service_input_types(&run, &cnt);
   n_graphs += family_nested_contexts(&run, &cnt);
   // family 2: decision services
   for (scheme, names) in [("plain", &PLAIN), ("colliding-names", &COLLIDING)] {
